@@ -19,7 +19,7 @@ git -C "$W" diff --stat | tail -1
 rc=0
 for p in "$@"; do
   case "$p" in quick|thorough) continue;; esac
-  VERIF_REPO="$W" /verif/run.py "$p" "${TIER:-quick}" | grep -E "VIOLATION|KNOWN|seed=" | head -8
+  VERIF_EVIDENCE_DIR="$W/.evidence" VERIF_REPO="$W" /verif/run.py "$p" "${TIER:-quick}" | grep -E "VIOLATION|KNOWN|seed=" | head -8
   r=${PIPESTATUS[0]}; echo "  -> $p exit=$r"; [ $r -ne 0 ] && rc=$r
 done
 exit $rc
